@@ -14,6 +14,7 @@ import Mathlib.Tactic.Linarith
 import Mathlib.Algebra.Order.Field.Rat
 import UxVerif.Lemmas.Integrate
 import UxVerif.Model.Integrate
+import UxVerif.Gen.Defaults
 
 namespace UxVerif.C06
 open UxVerif UxVerif.Integrate
@@ -349,5 +350,17 @@ example : [1, 0].Perm (List.range g2.nFace) ∧
   decide
 example : NodeOrEdge tetraNodeData := by decide
 example : (∃ e, integrate tetra [1, 1, 1, 1] tetraNodeData = .error e) := ⟨.node, by decide⟩
+
+/-! ### the default arguments (regenerated from `inspect.signature` on every run) -/
+
+/-- `integrate()` with no arguments weights by the same areas as `compute_face_areas()` with no
+    arguments: the two defaults coincide, so "integrating the constant 1 gives the grid's total
+    area" refers to one and the same rule. -/
+theorem integrate_default_rule_eq_area_default :
+    Gen.Defaults.integrate_quadrature_rule = Gen.Defaults.compute_face_areas_quadrature_rule ∧
+    Gen.Defaults.integrate_order = Gen.Defaults.compute_face_areas_order ∧
+    Gen.Defaults.integrate_quadrature_rule = Gen.Defaults.calculate_total_face_area_quadrature_rule ∧
+    Gen.Defaults.integrate_order = Gen.Defaults.calculate_total_face_area_order := by
+  decide
 
 end UxVerif.C06
